@@ -2,6 +2,7 @@ package c12
 
 import (
 	"bytes"
+	"errors"
 	"fmt"
 	"net"
 	"net/url"
@@ -46,6 +47,7 @@ type Case struct {
 	NextClear  bool        `json:",omitempty"` // the consuming handler ends with c.ClearCookie() - "forget every cookie of this client"
 	NextChain  bool        `json:",omitempty"` // ... and that redirect attaches a message of its own (a chain of flash redirects)
 	NextPath   string      `json:",omitempty"` // path of the consuming handler ("" = /next); nested paths have a default cookie path other than "/"
+	NextFail   string      `json:",omitempty"` // the consuming handler (not redirecting) fails after reading the messages: err = returns an error (default error handler), errfail = ... and the application's error handler fails too (the 500 of last resort)
 }
 
 func (c Case) goPath() string {
@@ -101,7 +103,11 @@ type seen struct {
 }
 
 func newApp(c Case, s *seen) *fiber.App {
-	app := fiber.New()
+	var cfg fiber.Config
+	if c.NextFail == "errfail" && !c.NextRedir {
+		cfg.ErrorHandler = func(fiber.Ctx, error) error { return errors.New("rendering the error page failed") }
+	}
+	app := fiber.New(cfg)
 	goH := func(ctx fiber.Ctx) error {
 		r := ctx.Redirect()
 		if c.Status != 0 {
@@ -151,6 +157,9 @@ func newApp(c Case, s *seen) *fiber.App {
 				ctx.ClearCookie() // e.g. a logout middleware behind the handler: err := c.Next(); c.ClearCookie(); return err
 			}
 			return err
+		}
+		if c.NextFail != "" {
+			return errors.New("the page could not be rendered")
 		}
 		return ctx.SendString("next")
 	}
@@ -320,7 +329,7 @@ func check(c Case) vk.Verdict {
 	if err != nil {
 		return vk.Failf("request 2: %v", err)
 	}
-	if !bytes.HasPrefix(out2, []byte("HTTP/1.1 200")) && !(c.NextRedir && bytes.HasPrefix(out2, []byte("HTTP/1.1 30"))) {
+	if !bytes.HasPrefix(out2, []byte("HTTP/1.1 200")) && !(c.NextRedir && bytes.HasPrefix(out2, []byte("HTTP/1.1 30"))) && !(c.NextFail != "" && !c.NextRedir && bytes.HasPrefix(out2, []byte("HTTP/1.1 500"))) {
 		return vk.Failf("request 2 (cookie %q) answered %q", val, firstLine(out2))
 	}
 	if strings.Join(s.msgs, "|") != strings.Join(wantMsgs, "|") {
@@ -463,7 +472,7 @@ func checkInProcess(c Case, wantMsgs, wantInputs []string) vk.Verdict {
 		return ctx
 	}
 	r2 := deliver(true)
-	if r2.Response.StatusCode() != 200 && !(c.NextRedir && r2.Response.StatusCode()/10 == 30) {
+	if r2.Response.StatusCode() != 200 && !(c.NextRedir && r2.Response.StatusCode()/10 == 30) && !(c.NextFail != "" && !c.NextRedir && r2.Response.StatusCode() == 500) {
 		return vk.Failf("in process: request 2 answered %d", r2.Response.StatusCode())
 	}
 	if strings.Join(s.msgs, "|") != strings.Join(wantMsgs, "|") {
@@ -533,6 +542,7 @@ func genCase(t *rapid.T) Case {
 		NextRedir: rapid.IntRange(0, 3).Draw(t, "nextredir") == 0, NextChain: rapid.Bool().Draw(t, "nextchain"), ClearAfter: rapid.IntRange(0, 2).Draw(t, "clearafter") == 0,
 		GoPath: rapid.SampledFrom([]string{"", "", "/area/go", "/a/b/c/go"}).Draw(t, "gopath"), NextPath: rapid.SampledFrom([]string{"", "", "/app/next/deep", "/users/42/edit"}).Draw(t, "nextpath"),
 		Via: rapid.SampledFrom([]string{"", "", "route", "routeq", "back"}).Draw(t, "via"), NextClear: rapid.IntRange(0, 4).Draw(t, "nextclear") == 0,
+		NextFail:   rapid.SampledFrom([]string{"", "", "", "", "err", "errfail"}).Draw(t, "nextfail"),
 		NextMethod: rapid.SampledFrom([]string{"", "", "", "POST", "PUT"}).Draw(t, "nextmethod")}
 	n := rapid.IntRange(0, 5).Draw(t, "nmsgs")
 	for i := 0; i < n; i++ {
